@@ -90,6 +90,11 @@ add("C26", "exploration",
     "Only the windows at operation boundaries and clock reads are interleaved (that is where every racy load of the breaker sits); atomic sequences between them run uninterrupted.",
     "property-based testing over harness-owned thread schedules (deterministic, shrinkable interleavings) with invariant oracles", "§4 C26")
 
+add("C21", "exploration",
+    "Grammar-based generation of every documented command form (optional clauses in any allowed order, 1-4 streams/partitions/events, keyword case, boundary identifiers and numbers, every string/number frame variant) together with the request each denotes; the real command builders of sierradb-client executed against a capturing connection; and single-mutation near misses (missing value, malformed value, duplicated clause, trailing token, wrong frame type). The server's own parsers must return exactly the denoted request, respectively an error.",
+    "The async SubscriptionManager builders are not captured (sync/typed command builders are). Keyword-named stream ids are generated only in positional slots.",
+    "grammar-based property-based testing with a denotational (expected request) oracle, differential client-vs-server check, mutation-based negative cases", "§4 C21")
+
 NOT_BUILT = {}
 ALL = ["C%02d" % i for i in range(1, 27)]
 for i in ALL:
